@@ -356,8 +356,8 @@ Theorem write_inv : forall c k o i st s, inv st (wr_store (write c k o i st s)).
 Proof.
   intros c k o i st s. unfold write.
   destruct (((k =? W_VTT)%Z || (k =? W_SCC)%Z) && is_empty_set st s); [apply inv_refl|].
-  destruct (deepcopy FUEL st s) as [[st1 s1]|] eqn:Edc; [|apply inv_refl].
-  destruct (deepcopy_inv st st FUEL s st1 s1 (inv_refl st) Edc) as (I1 & L1 & V1).
+  destruct (deepcopy (dc_fuel st) st s) as [[st1 s1]|] eqn:Edc; [|apply inv_refl].
+  destruct (deepcopy_inv st st _ s st1 s1 (inv_refl st) Edc) as (I1 & L1 & V1).
   assert (Hs1 : inr (length st) (length st1) s1).
   { destruct s; try (subst s1; exact I). exact V1. }
   destruct ((k =? W_SRT)%Z || (k =? W_MDVD)%Z || (k =? W_SCC)%Z); [exact I1|].
@@ -395,8 +395,8 @@ Proof.
   assert (B : inv st st3 /\ (length st2 <= length st3)%nat).
   { eapply single_assign_inv; [exact A| |exact Es]. inr_up. }
   destruct B as [B LB].
-  destruct (deepcopy FUEL st3 s1) as [[st4 s2]|] eqn:Edc2; [|exact B].
-  destruct (deepcopy_inv st st3 FUEL s1 st4 s2 B Edc2) as (I4 & L4 & V4).
+  destruct (deepcopy (dc_fuel st3) st3 s1) as [[st4 s2]|] eqn:Edc2; [|exact B].
+  destruct (deepcopy_inv st st3 _ s1 st4 s2 B Edc2) as (I4 & L4 & V4).
   assert (Hs2 : inr (length st) (length st4) s2).
   { destruct s1; try (subst s2; exact I). exact V4. }
   destruct (apply_slots st4 _ _ lg3) as [st5 lg5] eqn:Ea.
@@ -478,7 +478,7 @@ Lemma write_effect_instance_independent : forall c k o i1 i2 st s,
 Proof.
   intros c k o i1 i2 st s Hf. unfold write.
   destruct (((k =? W_VTT)%Z || (k =? W_SCC)%Z) && is_empty_set st s); [reflexivity|].
-  destruct (deepcopy FUEL st s) as [[st1 s1]|]; [|reflexivity].
+  destruct (deepcopy (dc_fuel st) st s) as [[st1 s1]|]; [|reflexivity].
   destruct ((k =? W_SRT)%Z || (k =? W_MDVD)%Z || (k =? W_SCC)%Z); [reflexivity|].
   destruct (k =? W_VTT)%Z; [reflexivity|].
   destruct (is_span_writer k) eqn:Hs.
@@ -502,7 +502,7 @@ Proof.
   destruct (k =? W_SINGLE)%Z; [|reflexivity].
   destruct (merge_all st1 s1 []) as [st2 lg]. cbv iota beta.
   destruct (single_assign st2 s1 _ lg) as [st3 lg3]. cbv iota beta.
-  destruct (deepcopy FUEL st3 s1) as [[st4 s2]|]; [|reflexivity].
+  destruct (deepcopy (dc_fuel st3) st3 s1) as [[st4 s2]|]; [|reflexivity].
   destruct (apply_slots st4 _ _ lg3) as [st5 lg5]. cbv iota beta.
   destruct (p_err p2); reflexivity.
 Qed.
@@ -554,8 +554,8 @@ Proof.
   destruct (((k =? W_VTT)%Z || (k =? W_SCC)%Z) && is_empty_set st s) eqn:Ee.
   { right. proj_simpl. apply andb_true_iff in Ee. destruct Ee as [Ee _]. apply orb_true_iff in Ee.
     destruct Ee as [Ee|Ee]; rewrite Ee; repeat rewrite orb_true_r; reflexivity. }
-  destruct (deepcopy FUEL st s) as [[st1 s1]|] eqn:Edc; [|left; reflexivity].
-  rewrite (deepcopy_snapshot_eq st FUEL s st1 s1 Hwf Hb Edc FUEL).
+  destruct (deepcopy (dc_fuel st) st s) as [[st1 s1]|] eqn:Edc; [|left; reflexivity].
+  rewrite (deepcopy_snapshot_eq st _ s st1 s1 Hwf Hb Edc FUEL).
   destruct (k =? W_SRT)%Z eqn:K1; [right; reflexivity|].
   destruct (k =? W_MDVD)%Z eqn:K3; [right; reflexivity|].
   destruct (k =? W_SCC)%Z eqn:K6; [right; reflexivity|].
@@ -574,7 +574,7 @@ Proof.
       [reflexivity|]. cbv zeta. destruct (legacy_styles _ _ _). reflexivity. }
   destruct (k =? W_SINGLE)%Z eqn:K7; [|right; reflexivity].
   cbn [orb]. cbv zeta. destruct (merge_all st1 s1 []). destruct (single_assign _ _ _ _).
-  destruct (deepcopy FUEL _ s1) as [[st4 sc2]|]; [|left; reflexivity].
+  destruct (deepcopy (dc_fuel _) _ s1) as [[st4 sc2]|]; [|left; reflexivity].
   right. destruct (apply_slots st4 _ _ _). destruct (p_err _); reflexivity.
 Qed.
 
@@ -699,3 +699,148 @@ Qed.
 
 Lemma wf_world0 : wf_world world0.
 Proof. split; [exact wf_store0|constructor]. Qed.
+
+(* ---- the fuel side condition is dead: on a well-formed store write() never reports EOutOfFuel ----------------------- *)
+Lemma tr_code_err : forall o c e, tr_code o c = Err e -> e <> EOutOfFuel.
+Proof.
+  intros o [c|] e H; unfold tr_code in H; [|discriminate H].
+  destruct (negb (flag fT c)); [discriminate H|]. destruct (wo_rel o).
+  - destruct (flag fA c && negb (wo_dims o)); [inversion H; subst; unfold ValueError; intros X; discriminate X|].
+    destruct (wo_fit o && flag fT (relativized c) && flag fO (relativized c)); discriminate H.
+  - destruct (wo_fit o); [|discriminate H]. destruct (flag fO c); [|discriminate H].
+    destruct (flag fE c && flag fA c); [inversion H; subst; unfold ValueError; intros X; discriminate X|discriminate H].
+Qed.
+
+Lemma tr_scode_err : forall o sc e, tr_scode o sc = Err e -> e <> EOutOfFuel.
+Proof.
+  intros o [b c] e H. unfold tr_scode in H. cbn [fst snd] in H. destruct b; [|eapply tr_code_err; eauto].
+  destruct c as [c|]; unfold tr_code_lang in H; [|discriminate H].
+  destruct (flag fT c && wo_rel o); [|discriminate H].
+  destruct (flag fA c && negb (wo_dims o)); [inversion H; subst; unfold ValueError; intros X; discriminate X|discriminate H].
+Qed.
+
+Lemma plan_slots_err : forall o codes e, snd (plan_slots o codes) = Some e -> e <> EOutOfFuel.
+Proof.
+  intros o. induction codes as [|c t IH]; intros e H; simpl in H; [discriminate|].
+  destruct (tr_scode o c) as [a|e'] eqn:E.
+  - destruct (plan_slots o t) as [r e2]. simpl in *. apply IH. exact H.
+  - simpl in H. inversion H; subst. eapply tr_scode_err; eauto.
+Qed.
+
+Lemma make_plan_err : forall k o b l t e, p_err (make_plan k o b l t) = Some e -> e <> EOutOfFuel.
+Proof.
+  intros k o b l t e H. unfold make_plan in H.
+  destruct (k =? W_DFXP)%Z.
+  { destruct (plan_slots o (dfxp_codes (dfxp_langs o t))) as [sl [e1|]] eqn:E; simpl in H.
+    - inversion H; subst. apply (plan_slots_err o (dfxp_codes (dfxp_langs o t)) e). rewrite E. reflexivity.
+    - destruct (caps_tokens o 4 None b _). discriminate. }
+  destruct (k =? W_SINGLE)%Z.
+  { destruct (plan_slots o (single_codes (wo_pos o) (dfxp_langs o t))) as [sl [e1|]] eqn:E; simpl in H.
+    - inversion H; subst. apply (plan_slots_err o (single_codes (wo_pos o) (dfxp_langs o t)) e). rewrite E. reflexivity.
+    - destruct (caps_tokens o 4 _ b _). discriminate. }
+  destruct (k =? W_LEGACY)%Z.
+  { destruct (caps_tokens o 8 None b _). discriminate. }
+  destruct (k =? W_SAMI)%Z; [|discriminate].
+  destruct (plan_slots o (sami_codes t)) as [sl e1] eqn:E.
+  assert (He : e1 = Some e -> e <> EOutOfFuel).
+  { intros ->. apply (plan_slots_err o (sami_codes t) e). rewrite E. reflexivity. }
+  destruct (tr_code o (tcode (tfield t 3))); [|apply He; exact H].
+  destruct (sami_langs_before o (set_langs_t t)). destruct (sami_tokens o b l l0) as [[o1 l1] toks].
+  apply He. exact H.
+Qed.
+
+Theorem write_never_out_of_fuel : forall c k o i st s,
+  wf st -> below (length st) s -> wr_result (write c k o i st s) <> Err EOutOfFuel.
+Proof.
+  intros c k o i st s Hwf Hb. unfold write.
+  destruct (((k =? W_VTT)%Z || (k =? W_SCC)%Z) && is_empty_set st s); [discriminate|].
+  destruct (deepcopy_succeeds st s Hwf Hb) as (st1 & s1 & Edc). unfold dc_fuel. rewrite Edc.
+  destruct (deepcopy_inv st st _ s st1 s1 (inv_refl st) Edc) as (I1 & L1 & V1).
+  assert (Hs1 : inr (length st) (length st1) s1).
+  { destruct s; try (subst s1; exact I). exact V1. }
+  destruct ((k =? W_SRT)%Z || (k =? W_MDVD)%Z || (k =? W_SCC)%Z); [discriminate|].
+  destruct (k =? W_VTT)%Z; [discriminate|].
+  destruct (k =? W_DFXP)%Z.
+  { cbv zeta. destruct (apply_slots st1 _ _ []). destruct (p_err _) eqn:E; [|discriminate].
+    cbn [wr_result]. intros H. inversion H; subst. eapply make_plan_err; eauto. }
+  destruct (k =? W_SAMI)%Z.
+  { cbv zeta. destruct (apply_slots st1 _ _ []). destruct (p_err _) eqn:E.
+    - cbn [wr_result]. intros H. inversion H; subst. eapply make_plan_err; eauto.
+    - destruct (sami_styles _ _ _). discriminate. }
+  destruct (k =? W_LEGACY)%Z.
+  { destruct (merge_all st1 s1 []).
+    match goal with |- context [if ?b then mkWres _ _ (Err IndexError) _ _ else _] => destruct b end; [discriminate|].
+    cbv zeta. destruct (legacy_styles _ _ _). discriminate. }
+  destruct (k =? W_SINGLE)%Z; [|discriminate].
+  destruct (merge_all st1 s1 []) as [st2 lg] eqn:Em.
+  assert (A : inv st st2 /\ (length st1 <= length st2)%nat) by (eapply merge_all_inv; [exact I1|exact Hs1|exact Em]).
+  destruct A as [A LA].
+  destruct (single_assign st2 s1 _ lg) as [st3 lg3] eqn:Es.
+  assert (B : inv st st3 /\ (length st2 <= length st3)%nat) by (eapply single_assign_inv; [exact A| |exact Es]; inr_up).
+  destruct B as [B LB].
+  assert (W3 : wf st3) by (eapply inv_wf; eauto).
+  assert (Hb3 : below (length st3) s1) by (eapply inr_below; eapply inr_mono; [exact Hs1|lia]).
+  destruct (deepcopy_succeeds st3 s1 W3 Hb3) as (st4 & s2 & Edc2). rewrite Edc2.
+  cbv zeta. destruct (apply_slots st4 _ _ lg3). destruct (p_err _) eqn:E; [|discriminate].
+  cbn [wr_result]. intros H. inversion H; subst. eapply make_plan_err; eauto.
+Qed.
+
+(* C09, unconditional form: on a well-formed store the result of write() IS output_of (kind, options, snapshot) *)
+Theorem write_result_is_output_of : forall c k o i st s,
+  fix15 c = true -> wf st -> below (length st) s ->
+  wr_result (write c k o i st s) = output_of k o (snap FUEL st s).
+Proof.
+  intros c k o i st s Hf Hwf Hb.
+  destruct (write_result_function_of_snapshot c k o i st s Hf Hwf Hb) as [H|H]; [|exact H].
+  exfalso. exact (write_never_out_of_fuel c k o i st s Hwf Hb H).
+Qed.
+
+Corollary write_same_snapshot_same_result_wf : forall c k o i1 i2 st1 st2 s1 s2,
+  fix15 c = true -> wf st1 -> wf st2 -> below (length st1) s1 -> below (length st2) s2 ->
+  snap FUEL st1 s1 = snap FUEL st2 s2 ->
+  wr_result (write c k o i1 st1 s1) = wr_result (write c k o i2 st2 s2).
+Proof.
+  intros. rewrite !write_result_is_output_of by assumption. congruence.
+Qed.
+
+Theorem write_history_independent_wf : forall c ops w k o wi si s,
+  fix15 c = true -> wf_world w -> forallb is_write ops = true -> nth_error (w_sets w) si = Some s ->
+  wr_result (write c k o wi (w_st (run_world c w ops)) s) = output_of k o (snap FUEL (w_st w) s).
+Proof.
+  intros c ops w k o wi si s Hf Hw Hall Hs.
+  destruct (write_history_independent c ops w k o wi si s Hf Hw Hall Hs) as [H|H]; [|exact H].
+  exfalso. destruct (writes_preserve_all_sets c ops w Hw Hall) as (W & S & L & P).
+  assert (Hb : below (length (w_st w)) s) by (eapply nth_error_Forall; [exact (proj2 Hw)|exact Hs]).
+  eapply (write_never_out_of_fuel c k o wi _ s (proj1 W)); [eapply below_mono; eauto|exact H].
+Qed.
+
+(* ---- C09 determinism: the output does not depend on how a hash set enumerates ------------------------------------------ *)
+From Coq Require Import Permutation.
+
+Lemma existsb_perm : forall (A : Type) (f : A -> bool) l l', Permutation l l' -> existsb f l = existsb f l'.
+Proof.
+  intros A f l l' H. induction H; simpl; auto.
+  - rewrite IHPermutation. reflexivity.
+  - destruct (f x), (f y); reflexivity.
+  - congruence.
+Qed.
+
+(* the hash set of assigned region ids is only asked for membership: ANY enumeration order gives the same document *)
+Theorem regions_independent_of_set_enumeration : forall enum o t,
+  (forall l, Permutation (enum l) l) ->
+  dfxp_regions (fun l => l) enum o t = dfxp_regions (fun l => l) (fun l => l) o t.
+Proof.
+  intros enum o t H. unfold dfxp_regions, kept_regions. f_equal.
+  apply filter_ext. intros p. apply existsb_perm. apply H.
+Qed.
+
+(* ... whereas the container of unique layouts MUST be iterated in a fixed order: with a hash-set-like enumeration
+   (some permutation) of it the region ids change - the real code has to use an ordered container there (_OrderedSet) *)
+Theorem regions_depend_on_unique_layout_order_refuted :
+  exists iter codes, (forall l, Permutation (iter l) l) /\
+    region_ids iter codes <> region_ids (fun l => l) codes.
+Proof.
+  exists (@rev Z), [Some 18%Z; Some (256 + 18)%Z]. split.
+  - intros l. apply Permutation_sym. apply Permutation_rev.
+  - vm_compute. discriminate.
+Qed.
